@@ -266,6 +266,12 @@ func runC19(cx *Ctx, r *Report) {
 							inc = true
 						}
 					}
+					// (or the encoded counter+1 is the value of the write itself)
+					if !inc && cx.classifyCall(c) == "store.set" {
+						if sa := storeArgs(c); len(sa) == 2 && isInc(sa[1]) {
+							inc = true
+						}
+					}
 					if inc {
 						ctrSites = append(ctrSites, ins)
 					}
